@@ -163,6 +163,16 @@ impl ServerState {
     });
   }
 
+  fn affected_set(&self, dirty_set: HashSet<ModuleReference>) -> HashSet<ModuleReference> {
+    if dirty_set.contains(&ModuleReference::STD_TUPLES) {
+      // Tuple expressions and patterns are typed against the tuple classes of the standard
+      // library without importing them, so every module depends on that module.
+      self.parsed_modules.keys().copied().chain(dirty_set).collect()
+    } else {
+      self.dep_graph.affected_set(dirty_set)
+    }
+  }
+
   pub fn all_modules(&self) -> Vec<&ModuleReference> {
     self.parsed_modules.keys().collect()
   }
@@ -203,15 +213,14 @@ impl ServerState {
       error_set.merge(local_error_set);
     }
     self.dep_graph = DependencyGraph::new(&self.parsed_modules);
-    let recheck_set = self.dep_graph.affected_set(initial_update_set.clone());
+    let recheck_set = self.affected_set(initial_update_set.clone());
     self.recheck(error_set, &recheck_set, &initial_update_set);
   }
 
   pub fn rename_module(&mut self, renames: Vec<(ModuleReference, ModuleReference)>) {
     let mut error_set = ErrorSet::new();
-    let recheck_set = self
-      .dep_graph
-      .affected_set(renames.iter().flat_map(|(a, b)| vec![*a, *b].into_iter()).collect());
+    let recheck_set =
+      self.affected_set(renames.iter().flat_map(|(a, b)| vec![*a, *b].into_iter()).collect());
     let mut reparsed_set = HashSet::new();
     // Only the syntax errors of the module that finally lives under a name count,
     // even if the batch moves modules onto or away from the same name more than once.
@@ -245,7 +254,7 @@ impl ServerState {
   }
 
   pub fn remove(&mut self, module_references: &[ModuleReference]) {
-    let recheck_set = self.dep_graph.affected_set(module_references.iter().copied().collect());
+    let recheck_set = self.affected_set(module_references.iter().copied().collect());
     for mod_ref in module_references {
       self.string_sources.remove(mod_ref);
       self.parsed_modules.remove(mod_ref);
